@@ -6,6 +6,7 @@ import MesaModel.Proofs.LegacyDist
 import MesaModel.Proofs.LegacyNetState
 import MesaModel.Proofs.LegacyIndex
 import MesaModel.Proofs.LegacyHexTorus
+import MesaModel.Proofs.LegacyCompose
 /-!
 # C09 — legacy neighbourhood queries return exactly the cells/agents in range
 
@@ -135,6 +136,23 @@ theorem C09_get_neighbors_exact (g : Grid) (hi : Inv g) (hw : 0 < g.w) (hh : 0 <
   · rintro ⟨c, hp, h1, h2⟩
     have hcg : g.inGrid c := hi.in_grid c (List.ne_nil_of_mem ((hi.pos_content a c).mp hp))
     exact ⟨c, (hmem c).mpr ⟨hcg, h1, h2⟩, hp⟩
+
+/-- **cached `get_neighbors` interleaved with moves** (review item L11): on one grid instance, any history of mutating calls
+    (within C08's quantifier) interleaved with `get_neighbors` queries — answered through the cache, which is filled by the
+    earlier queries and never invalidated — returns, query by query, what a fresh neighbourhood computation on the grid *as it is
+    at that moment* returns (`freshQ`); the cache cannot go stale because its entries depend on the shape of the grid only, which
+    no call changes.  Each such state satisfies `Inv` (`C08_views_agree_all_histories`), so `C09_get_neighbors_exact` says what
+    every answer is: the agents standing in range at that moment. -/
+theorem C09_cached_neighbors_with_moves (w h : Int) (hw : 1 ≤ w) (hh : 1 ≤ h) (torus multi : Bool) (cutoff : Nat)
+    (hist : List GQ) (hok : HistOkQ (init w h torus multi cutoff) hist) :
+    runQ (init w h torus multi cutoff) [] hist = freshQ (init w h torus multi cutoff) hist :=
+  runQ_eq_freshQ hist _ [] (by simp [init]; omega) (by simp [init]; omega) (inv_init w h torus multi cutoff)
+    (by intro k v hl; simp at hl) hok
+
+/-- two agents next to each other, a query (cached), the neighbour moves away, the same query again: first [1], then [] -/
+example : runQ (init 4 4 false false 23) []
+    [.op (.place 0 (1, 1)), .op (.place 1 (1, 2)), .nbrs ⟨(1, 1), true, false, 1⟩, .op (.move 1 (3, 3)), .nbrs ⟨(1, 1), true, false, 1⟩]
+    = [.ok [1], .ok []] := by rfl
 
 /-- **hex `get_neighbors` / `iter_neighbors`**: for a centre in the grid every cell of the neighbourhood is a cell
     of the grid, so the raw indexing of `iter_cell_list_contents` reads exactly those cells, and the agents returned
